@@ -144,9 +144,12 @@ func c18Universe() (u []types.AddrMaybeId) {
 			}
 		}
 	}
-	if len(u) > 24 {
-		u = u[:24]
+	if len(u) > 22 {
+		u = u[:22]
 	}
+	// the same host and port in 4-byte and in IPv4-mapped 16-byte form, with and without an ID: two
+	// distinct candidates, so one of them must be strictly closer (totality of the order)
+	u = append(u, types.AddrMaybeId{Addr: ap("[::ffff:1.1.1.1]:1")}, types.AddrMaybeId{Addr: ap("[::ffff:1.1.1.1]:1"), Id: generics.Some(ids[0])})
 	return
 }
 
